@@ -13,39 +13,69 @@ package localstore
 //@ spec func pinStored(x int, k Bytes) int
 //@ spec func queued(g int, x int, k Bytes) int
 //@ ghost batchGen int
+//@ # The same for the garbage-collection counter of a file root (C13): gcStored(c, x, k) is the GCounter
+//@ # the committed database of version c holds under key k of index x (0: no entry); queuedG(g, x, k)
+//@ # what version g of the batch will leave there (0: queued delete, -1: nothing queued); a direct
+//@ # Put makes a new committed version.
+//@ spec func gcStored(c int, x int, k Bytes) int
+//@ spec func queuedG(g int, x int, k Bytes) int
+//@ ghost commitGen int
 //@ extern func (github.com/gauss-project/aurorafs/pkg/shed.Index).Get
 //@   ensures err == nil ==> out.PinCounter == pinStored(f.prefix.rid, seq(keyFields.Address)) && out.PinCounter >= 1 && out.PinCounter < 18446744073709551615
 //@   ensures errIs(err, driver.ErrNotFound) ==> pinStored(f.prefix.rid, seq(keyFields.Address)) == 0
 //@   ensures err != nil ==> out.PinCounter == 0
+//@   ensures err == nil ==> out.GCounter == gcStored(commitGen, f.prefix.rid, seq(keyFields.Address)) && out.GCounter >= 1 && out.GCounter < 18446744073709551615 && seq(out.Address) == seq(keyFields.Address)
+//@   ensures errIs(err, driver.ErrNotFound) ==> gcStored(commitGen, f.prefix.rid, seq(keyFields.Address)) == 0
+//@   ensures err != nil ==> !errIs(err, driver.ErrNotFound) || gcStored(commitGen, f.prefix.rid, seq(keyFields.Address)) == 0
 //@   assigns nothing
 //@ extern func (github.com/gauss-project/aurorafs/pkg/shed.Index).Put
-//@   assigns nothing
+//@   assigns ghost commitGen
+//@   ensures err == nil ==> gcStored(commitGen, f.prefix.rid, seq(i.Address)) == i.GCounter
+//@   ensures err != nil ==> gcStored(commitGen, f.prefix.rid, seq(i.Address)) == gcStored(old(commitGen), f.prefix.rid, seq(i.Address))
+//@   ensures forall x int, k Bytes :: !(x == f.prefix.rid && k == seq(i.Address)) ==> gcStored(commitGen, x, k) == gcStored(old(commitGen), x, k)
 //@ extern func (github.com/gauss-project/aurorafs/pkg/shed.Index).PutInBatch
 //@   assigns ghost batchGen
-//@   ensures err == nil ==> queued(batchGen, f.prefix.rid, seq(i.Address)) == i.PinCounter
-//@   ensures err != nil ==> queued(batchGen, f.prefix.rid, seq(i.Address)) == queued(old(batchGen), f.prefix.rid, seq(i.Address))
-//@   ensures forall x int, k Bytes :: !(x == f.prefix.rid && k == seq(i.Address)) ==> queued(batchGen, x, k) == queued(old(batchGen), x, k)
+//@   ensures err == nil ==> queued(batchGen, f.prefix.rid, seq(i.Address)) == i.PinCounter && queuedG(batchGen, f.prefix.rid, seq(i.Address)) == i.GCounter
+//@   ensures err != nil ==> queued(batchGen, f.prefix.rid, seq(i.Address)) == queued(old(batchGen), f.prefix.rid, seq(i.Address)) && queuedG(batchGen, f.prefix.rid, seq(i.Address)) == queuedG(old(batchGen), f.prefix.rid, seq(i.Address))
+//@   ensures forall x int, k Bytes :: !(x == f.prefix.rid && k == seq(i.Address)) ==> queued(batchGen, x, k) == queued(old(batchGen), x, k) && queuedG(batchGen, x, k) == queuedG(old(batchGen), x, k)
 //@ extern func (github.com/gauss-project/aurorafs/pkg/shed.Index).DeleteInBatch
 //@   assigns ghost batchGen
-//@   ensures err == nil ==> queued(batchGen, f.prefix.rid, seq(keyFields.Address)) == 0
-//@   ensures err != nil ==> queued(batchGen, f.prefix.rid, seq(keyFields.Address)) == queued(old(batchGen), f.prefix.rid, seq(keyFields.Address))
-//@   ensures forall x int, k Bytes :: !(x == f.prefix.rid && k == seq(keyFields.Address)) ==> queued(batchGen, x, k) == queued(old(batchGen), x, k)
+//@   ensures err == nil ==> queued(batchGen, f.prefix.rid, seq(keyFields.Address)) == 0 && queuedG(batchGen, f.prefix.rid, seq(keyFields.Address)) == 0
+//@   ensures err != nil ==> queued(batchGen, f.prefix.rid, seq(keyFields.Address)) == queued(old(batchGen), f.prefix.rid, seq(keyFields.Address)) && queuedG(batchGen, f.prefix.rid, seq(keyFields.Address)) == queuedG(old(batchGen), f.prefix.rid, seq(keyFields.Address))
+//@   ensures forall x int, k Bytes :: !(x == f.prefix.rid && k == seq(keyFields.Address)) ==> queued(batchGen, x, k) == queued(old(batchGen), x, k) && queuedG(batchGen, x, k) == queuedG(old(batchGen), x, k)
+//@ # what the root's counter will be once the batch is committed
+//@ spec func gcAfter(c int, g int, x int, k Bytes) int = ite(queuedG(g, x, k) >= 0, queuedG(g, x, k), gcStored(c, x, k))
 
 //@ # the indexes of one database are different indexes
 //@ spec func indexesDistinct(db *DB) bool = db.pinIndex.prefix.rid != db.gcIndex.prefix.rid && db.pinIndex.prefix.rid != db.retrievalAccessIndex.prefix.rid && db.pinIndex.prefix.rid != db.retrievalDataIndex.prefix.rid
 
 //@ # pinning a chunk queues its committed pin counter plus one, and nothing else for the pin index
 //@ func (*DB).setPin
-//@   property C15
-//@   requires db != nil && indexesDistinct(db)
+//@   property C15 C13
+//@   requires db != nil && indexesDistinct(db) && db.gcIndex.prefix.rid != db.retrievalAccessIndex.prefix.rid && db.gcIndex.prefix.rid != db.retrievalDataIndex.prefix.rid
+//@   requires queuedG(batchGen, db.gcIndex.prefix.rid, seq(rootItem.Address)) == 0 - 1
+//@   ensures counter-and-recorded-count-move-together: err == nil ==> gcSizeChange == gcAfter(commitGen, batchGen, db.gcIndex.prefix.rid, seq(rootItem.Address)) - old(gcStored(commitGen, db.gcIndex.prefix.rid, seq(rootItem.Address)))
 //@   ensures counter-plus-one-queued: err == nil ==> queued(batchGen, db.pinIndex.prefix.rid, seq(item.Address)) == pinStored(db.pinIndex.prefix.rid, seq(item.Address)) + 1
 //@   ensures other-chunks-keep-their-counter: forall k Bytes :: k != seq(item.Address) ==> queued(batchGen, db.pinIndex.prefix.rid, k) == queued(old(batchGen), db.pinIndex.prefix.rid, k)
 
 //@ # unpinning queues the committed counter minus one (the entry's removal when that is zero) and fails
 //@ # for a chunk that is not pinned
 //@ func (*DB).setUnpin
-//@   property C15
-//@   requires db != nil && indexesDistinct(db) && now != nil
+//@   property C15 C13
+//@   requires db != nil && indexesDistinct(db) && now != nil && db.gcIndex.prefix.rid != db.retrievalAccessIndex.prefix.rid && db.gcIndex.prefix.rid != db.retrievalDataIndex.prefix.rid
+//@   requires queuedG(batchGen, db.gcIndex.prefix.rid, seq(rootItem.Address)) == 0 - 1
+//@   ensures counter-and-recorded-count-move-together: err == nil ==> gcSizeChange == gcAfter(commitGen, batchGen, db.gcIndex.prefix.rid, seq(rootItem.Address)) - old(gcStored(commitGen, db.gcIndex.prefix.rid, seq(rootItem.Address)))
 //@   ensures counter-minus-one-queued: err == nil ==> pinStored(db.pinIndex.prefix.rid, seq(item.Address)) >= 1 && queued(batchGen, db.pinIndex.prefix.rid, seq(item.Address)) == pinStored(db.pinIndex.prefix.rid, seq(item.Address)) - 1
 //@   ensures unpinned-chunk-is-an-error: pinStored(db.pinIndex.prefix.rid, seq(item.Address)) == 0 ==> err != nil && queued(batchGen, db.pinIndex.prefix.rid, seq(item.Address)) == queued(old(batchGen), db.pinIndex.prefix.rid, seq(item.Address))
 //@   ensures other-chunks-keep-their-counter: forall k Bytes :: k != seq(item.Address) ==> queued(batchGen, db.pinIndex.prefix.rid, k) == queued(old(batchGen), db.pinIndex.prefix.rid, k)
+
+//@ # ---- C13: the other per-chunk writers of the cached-chunk counter --------------------------------
+//@ # (each called once per write batch for the root: nothing is queued for the root's gc entry yet)
+//@ extern func (github.com/prometheus/client_golang/prometheus.Gauge).Set
+//@   assigns nothing
+//@ func (*DB).setGC
+//@   property C13
+//@   requires db != nil && now != nil && db.gcIndex.prefix.rid != db.retrievalAccessIndex.prefix.rid && db.gcIndex.prefix.rid != db.retrievalDataIndex.prefix.rid
+//@   requires queuedG(batchGen, db.gcIndex.prefix.rid, seq(item.Address)) == 0 - 1
+//@   ensures counter-and-recorded-count-move-together: err == nil && item.Address != nil ==> gcSizeChange == gcAfter(commitGen, batchGen, db.gcIndex.prefix.rid, seq(item.Address)) - old(gcStored(commitGen, db.gcIndex.prefix.rid, seq(item.Address)))
+//@   ensures no-root-no-change: item.Address == nil ==> gcSizeChange == 0 && err == nil
